@@ -1,5 +1,6 @@
 """Run a program text in a fresh namespace and record what C01 calls its observable behaviour:
 the printed output, how the run ends (normally / exception type / exit status) and the public module namespace."""
+import builtins
 import io
 import signal
 import sys
@@ -43,8 +44,22 @@ def summary(v, depth=0):
 
 
 def observe(src, timeout=5, filename='<prog>', optimize=-1):
-    """→ dict(out=str, ending=str, globals={name: summary})"""
+    """→ dict(out=str, ending=str, globals={name: summary}, imports=[event])
+    `imports`: what the program's own import statements ask the import machinery for, in order, one event per
+    imported name (`import a.b` / `from m import x`) — statements merged or split keep the sequence."""
     ns = {'__name__': '__main__'}
+    imports = []
+    real_import = builtins.__import__
+
+    def recording_import(name, globals=None, locals=None, fromlist=(), level=0):
+        if globals is ns:
+            if fromlist:
+                for x in fromlist:
+                    imports.append('from %s%s import %s' % ('.' * level, name, x))
+            else:
+                imports.append('import ' + name)
+        return real_import(name, globals, locals, fromlist, level)
+
     buf = io.StringIO()
     ending = 'normal'
     old = signal.signal(signal.SIGALRM, _alarm)
@@ -53,8 +68,9 @@ def observe(src, timeout=5, filename='<prog>', optimize=-1):
         try:
             code = compile(src, filename, 'exec', optimize=optimize)
         except SyntaxError as e:
-            return {'out': '', 'ending': 'compile:' + type(e).__name__, 'globals': {}}
+            return {'out': '', 'ending': 'compile:' + type(e).__name__, 'globals': {}, 'imports': []}
         with contextlib.redirect_stdout(buf), contextlib.redirect_stderr(io.StringIO()):
+            builtins.__import__ = recording_import
             try:
                 exec(code, ns)
             except SystemExit as e:
@@ -65,7 +81,10 @@ def observe(src, timeout=5, filename='<prog>', optimize=-1):
                 ending = 'raised:RecursionError'
             except BaseException as e:
                 ending = 'raised:' + type(e).__name__
+            finally:
+                builtins.__import__ = real_import
     finally:
+        builtins.__import__ = real_import
         signal.alarm(0)
         signal.signal(signal.SIGALRM, old)
     pub = {}
@@ -76,4 +95,4 @@ def observe(src, timeout=5, filename='<prog>', optimize=-1):
             pub[k] = summary(v)
         except Exception as e:       # a __repr__/property of the program raising
             pub[k] = 'unsummarisable:' + type(e).__name__
-    return {'out': buf.getvalue(), 'ending': ending, 'globals': pub}
+    return {'out': buf.getvalue(), 'ending': ending, 'globals': pub, 'imports': imports}
